@@ -32,9 +32,14 @@ func main() {
 	case "rewrite":
 		m := map[string]string{}
 		for _, s := range strings.Split(*shims, ",") {
-			if s != "" {
-				m[s] = *mod + "/sim" + s
+			if s == "" {
+				continue
 			}
+			if strings.Contains(s, ".") { // a module outside std: the shim is named after its last element
+				m[s] = *mod + "/sim" + s[strings.LastIndexByte(s, '/')+1:]
+				continue
+			}
+			m[s] = *mod + "/sim" + s
 		}
 		n := 0
 		for _, dir := range flag.Args() {
